@@ -15,6 +15,7 @@ TmplRules(t) ==
       [] t = "t10" -> {}
       [] t = "t11" -> {[h |-> "h1.local", p |-> "/a", ty |-> "prefix", s |-> "s1"], [h |-> "h1.local", p |-> "/a", ty |-> "exact", s |-> "s2"]}
       [] t = "t12" -> {[h |-> "h2.local", p |-> "/", ty |-> "begin", s |-> "s1"]}
+      [] t = "t13" -> {[h |-> "*.h1.local", p |-> "/", ty |-> "begin", s |-> "s2"]}
       [] OTHER -> {}
 
 TmplBackend(t, h, p, ty) ==
@@ -30,6 +31,7 @@ TmplBackend(t, h, p, ty) ==
       [] t = "t10" -> "none"
       [] t = "t11" -> (CASE h = "h1.local" /\ p = "/a" /\ ty = "prefix" -> "s1" [] h = "h1.local" /\ p = "/a" /\ ty = "exact" -> "s2" [] OTHER -> "none")
       [] t = "t12" -> (CASE h = "h2.local" /\ p = "/" /\ ty = "begin" -> "s1" [] OTHER -> "none")
+      [] t = "t13" -> (CASE h = "*.h1.local" /\ p = "/" /\ ty = "begin" -> "s2" [] OTHER -> "none")
       [] OTHER -> "none"
 
 TmplTLS(t) ==
@@ -45,6 +47,7 @@ TmplTLS(t) ==
       [] t = "t10" -> {[h |-> "h1.local", c |-> "c1"]}
       [] t = "t11" -> {}
       [] t = "t12" -> {}
+      [] t = "t13" -> {[h |-> "*.h1.local", c |-> "c1"]}
       [] OTHER -> {}
 
 TmplSecret(t, h) ==
@@ -60,6 +63,7 @@ TmplSecret(t, h) ==
       [] t = "t10" -> (CASE h = "h1.local" -> "c1" [] OTHER -> "none")
       [] t = "t11" -> "none"
       [] t = "t12" -> "none"
+      [] t = "t13" -> (CASE h = "*.h1.local" -> "c1" [] OTHER -> "none")
       [] OTHER -> "none"
 
 EpsReady(e) ==
@@ -72,6 +76,26 @@ EpsReady(e) ==
 
 InitEps(s) == IF s = "s1" THEN "e1" ELSE "e2"
 
-AllTmplIds == {"t1", "t2", "t3", "t4", "t5", "t6", "t7", "t8", "t9", "t10", "t11", "t12"}
+EpsNotReady(e) ==
+    CASE e = "e0" -> {}
+      [] e = "e1" -> {}
+      [] e = "e2" -> {}
+      [] e = "e3" -> {"3"}
+      [] e = "e4" -> {}
+      [] OTHER -> {}
+
+PathChars(p) ==
+    CASE p = "/" -> <<"/">>
+      [] p = "/a" -> <<"/", "a">>
+      [] p = "/a/b" -> <<"/", "a", "/", "b">>
+      [] OTHER -> <<>>
+
+ReqPaths == <<<<"/">>, <<"/", "a">>, <<"/", "a", "/">>, <<"/", "a", "/", "b">>, <<"/", "a", "/", "b", "/", "c">>, <<"/", "a", "b">>, <<"/", "A">>, <<"/", "x">>>>
+
+ReqHosts == <<[name |-> "h1.local", chars |-> <<"h", "1", ".", "l", "o", "c", "a", "l">>], [name |-> "h2.local", chars |-> <<"h", "2", ".", "l", "o", "c", "a", "l">>], [name |-> "h1.local", chars |-> <<"H", "1", ".", "L", "O", "C", "A", "L">>], [name |-> "x.local", chars |-> <<"x", ".", "l", "o", "c", "a", "l">>]>>
+
+ReqSNI == <<[name |-> "h1.local", chars |-> <<"h", "1", ".", "l", "o", "c", "a", "l">>, wild |-> ""], [name |-> "h2.local", chars |-> <<"h", "2", ".", "l", "o", "c", "a", "l">>, wild |-> ""], [name |-> "a.h1.local", chars |-> <<"a", ".", "h", "1", ".", "l", "o", "c", "a", "l">>, wild |-> "*.h1.local"], [name |-> "b.a.h1.local", chars |-> <<"b", ".", "a", ".", "h", "1", ".", "l", "o", "c", "a", "l">>, wild |-> ""], [name |-> "x.local", chars |-> <<"x", ".", "l", "o", "c", "a", "l">>, wild |-> ""], [name |-> "h1.local.x", chars |-> <<"h", "1", ".", "l", "o", "c", "a", "l", ".", "x">>, wild |-> ""]>>
+
+AllTmplIds == {"t1", "t2", "t3", "t4", "t5", "t6", "t7", "t8", "t9", "t10", "t11", "t12", "t13"}
 
 =============================================================================
